@@ -210,6 +210,21 @@ def gen(rng, tier):
         tags = [(rand_name(rng), rand_value(rng)) for _ in range(k)]
         cases.append(ev(rng.choice(["error", "info", "debug"]), tags))
     cases += resp_cases(rng, 600 if quick else 20000)
+    # long values and names (a limit on the line or value length, if one is ever added, must not cut inside an escape
+    # sequence): plain runs of every length around 1 KiB .. 64 KiB boundaries followed by an escaped character, long runs
+    # of characters that need escapes, a long value followed by further tags
+    K = [ord("k")]
+    for n in (1020, 4090):
+        for d in range(0, 8):
+            for tail in ([0x22], [0x0A], [0x1F, 0x22]):
+                cases.append(ev("info", [(K, "s:" + utok([0x61] * (n + d) + tail)), ([ord("z")], "b:1")]))
+    for n in range(8185, 8194) if quick else list(range(8180, 8200)) + list(range(16376, 16390)):
+        for tail in ([0x22], [0x5C], [0x01]):
+            cases.append(ev("info", [(K, "s:" + utok([0x61] * n + tail)), ([ord("z")], "b:1")]))
+    for n in (1364, 1365, 1366, 1367) if quick else (1364, 1365, 1366, 1367, 2731, 4096, 8192):
+        cases.append(ev("error", [(K, "s:" + utok([0x01] * n)), ([ord("z")], "u8:1")]))
+        cases.append(ev("error", [(K, "s:" + utok([0x22] * (3 * n)))]))
+        cases.append(ev("debug", [([0x6E] * (6 * n) + [0x5C], "s:" + utok([0x5C] * 3))]))
     return cases
 
 
